@@ -103,9 +103,9 @@ def _gen_program(rng, cfg):
 
 
 def gen_prio(rng, kinds):
-    pol = rng.choice(["default", "default", "const", "perbatch", "neglen"])
+    pol = rng.choice(["default", "default", "const", "perbatch", "neglen", "intconst"])
     pr = {"policy": pol, "hashes": {"order": [rng.randint(0, 7) for _ in range(5)]}}
-    if pol == "const":
+    if pol in ("const", "intconst"):
         pr["vals"] = {str(k): rng.randint(0, 2) for k in range(kinds)}
     elif pol == "perbatch":
         pr["vals"] = {"seq": [rng.randint(0, 3) for _ in range(7)]}
